@@ -14,7 +14,7 @@ import sys
 import time
 
 VERIF = os.path.dirname(os.path.abspath(__file__))
-W = "/tmp/ev/cur"
+W = os.environ.get("VERIF_EV_DIR", "/tmp/ev/cur")
 
 
 def sh(cmd, cwd=None, env=None, timeout=6000):
